@@ -87,6 +87,7 @@ type Gen struct {
 	declLine    map[string]int
 	lemmaKey    string
 	skipInvs    bool
+	muteObl     int
 	usedInvs    map[string]bool
 }
 
@@ -586,7 +587,7 @@ func (g *Gen) allocZero(st *State, t types.Type) Term {
 // ---------------------------------------------------------------- obligations
 
 func (g *Gen) oblige(st *State, kind string, pos token.Pos, src string, goal Term) {
-	if goal.isTrue() {
+	if goal.isTrue() || g.muteObl > 0 {
 		return
 	}
 	if st.cond.isFalse() {
